@@ -9,7 +9,11 @@ export PYTHONPATH=/repo PYTHONHASHSEED=0
 import sys
 sys.path.insert(0, "harness"); sys.path.insert(0, "translator")
 import importlib
-for mod in ("props.c15",):
+for mod in ("props.c15", "props.c19", "props.c14"):
+    try:
+        importlib.import_module(mod)
+    except Exception as e:
+        print("skip", mod, e); continue
     m = importlib.import_module(mod)
     class C:  # minimal ctx
         def log(self, *a): print(*a)
